@@ -54,7 +54,9 @@ def dist(x1, x2, x1_eq_x2=False):
     Equivalent to `torch.cdist` with p=2, but clamps the minimum element to 1e-15.
     """
     if not x1_eq_x2:
-        res = torch.cdist(x1, x2)
+        # torch.cdist may use the quadratic expansion as well: shift both inputs by a common offset first (see sq_dist)
+        adjustment = x1.mean(-2, keepdim=True)
+        res = torch.cdist(x1 - adjustment, x2 - adjustment)
         return res.clamp_min(1e-15)
     res = sq_dist(x1, x2, x1_eq_x2=x1_eq_x2)
     return res.clamp_min_(1e-30).sqrt_()
